@@ -561,7 +561,7 @@ func c03IterateLock(c *Case) {
 }
 
 func runC03(r *Run) {
-	r.Rule = "real TaskQueueSet, real started TaskQueue workers, the real ManagerEventsHandler as consumer. Three kinds of cases: (1) controlled: 2-4 named queues, random schedules (deliveries for several queues per event through the schedule or the kube channel, worker steps from yield point to yield point, handler results, repeated Start) compared op by op with the model; `plain` cases (Success/Fail/Repeat only) are run dry and checked for per-queue execution order = arrival order; (2) blocked: queue 1 is held inside its handler (or in a 60 s back-off) while the other queues receive and complete all their tasks; (3) free-running: the same with real goroutines and no scheduler control, handler durations 0-300us, failures and repeats, queue 1's first hook blocks on a channel until the other queues have completed everything. (4) whole operator: a real ShellOperator assembled from the real pieces over 2-5 generated bash hooks with schedule bindings in main and 1-3 named queues (queues created by initAndStartHookQueues), ticks sent into the schedule channel, hook processes write start/end markers with their number of binding contexts; hook h1 hangs while the other queues must finish; some hooks fail their first run. Oracles on the start/end/arrival trace of the real code: no two executions of one queue overlap, the handled task is the head, per-queue order = arrival order, the other queues complete n executions while queue 1's execution is open, placement by the consumer. (5) loader: generated v0/v1 configurations (schedule and kubernetes bindings, queue absent / named / main) through LoadAndValidate: every binding gets the queue it names, main when none. (6) controller: generated v0/v1 schedule configurations (1-5 bindings, crontabs from a pool of three) through the loader into a real HookController, EnableScheduleBindings, one HandleScheduleEvent per crontab, compared with Model/Routing (op schedfan) and judged by oracle fanout. (7) whole operator, multi-binding hooks: 2-4 bash hooks, v1 or v0, 1-3 schedule bindings each on crontabs from a pool of three, 0-1 kubernetes binding, every binding its own queue (absent, q1..q3); h1 is bound in q1 and in another queue (half of the time on one crontab) and its executions for q1 hang; taps at the consumer (tasks made per received event) and at every queue handler (queue identity, contexts handled); arrivals carry the configured queue, starts the queue that ran them; the other queues, including executions of h1 itself, must complete what arrived while q1 hangs. (8) head change on the retry path: one or two controlled queues, the first task of queue 1 fails / repeats / asks for a delay, and while the worker stands at loop / afterCheck / beforeSelect / after a few ticks of its back-off the head of the queue is changed through the queue API (AddFirst, Remove of the failed task, Filter; 30 % with CancelTaskDelay; sometimes a delivery too): the execution after the back-off must be of the head of then (oracle log), op by op against the model (driver ops `ext ...`). (9) lock windows: 2-3 free-running queues with the real consumer; queue 1's worker is parked at every yield point queue.lock.* (in front of its queue lock: empty test of the shortcut and of the periodic head check, status updates) 40-120 times, in 30 % of them an event with 1-3 tasks for queue 1 (often empty then) and the other queues arrives: the consumer must come back for the next event and the other queues must run dry before the worker is released; loader/controller cases draw binding names from three regimes (all different, none named, pool of two) and queue names from a pool with look-alikes of `main` and of each other (case variants, prefixes, suffixes). Non-trivial = trace of >= 10 events; distinct = distinct op-line sequences."
+	r.Rule = "real TaskQueueSet, real started TaskQueue workers, the real ManagerEventsHandler as consumer. Three kinds of cases: (1) controlled: 2-4 named queues, random schedules (deliveries for several queues per event through the schedule or the kube channel, worker steps from yield point to yield point, handler results, repeated Start) compared op by op with the model; `plain` cases (Success/Fail/Repeat only) are run dry and checked for per-queue execution order = arrival order; (2) blocked: queue 1 is held inside its handler (or in a 60 s back-off) while the other queues receive and complete all their tasks; (3) free-running: the same with real goroutines and no scheduler control, handler durations 0-300us, failures and repeats, queue 1's first hook blocks on a channel until the other queues have completed everything. (4) whole operator: a real ShellOperator assembled from the real pieces over 2-5 generated bash hooks with schedule bindings in main and 1-3 named queues (queues created by initAndStartHookQueues), ticks sent into the schedule channel, hook processes write start/end markers with their number of binding contexts; hook h1 hangs while the other queues must finish; some hooks fail their first run. Oracles on the start/end/arrival trace of the real code: no two executions of one queue overlap, the handled task is the head, per-queue order = arrival order, the other queues complete n executions while queue 1's execution is open, placement by the consumer. (5) loader: generated v0/v1 configurations (schedule and kubernetes bindings, queue absent / named / main) through LoadAndValidate: every binding gets the queue it names, main when none. (6) controller: generated v0/v1 schedule configurations (1-5 bindings, crontabs from a pool of three) through the loader into a real HookController, EnableScheduleBindings, one HandleScheduleEvent per crontab, compared with Model/Routing (op schedfan) and judged by oracle fanout. (7) whole operator, multi-binding hooks: 2-4 bash hooks, v1 or v0, 1-3 schedule bindings each on crontabs from a pool of three, 0-1 kubernetes binding, every binding its own queue (absent, q1..q3); h1 is bound in q1 and in another queue (half of the time on one crontab) and its executions for q1 hang; taps at the consumer (tasks made per received event) and at every queue handler (queue identity, contexts handled); arrivals carry the configured queue, starts the queue that ran them; the other queues, including executions of h1 itself, must complete what arrived while q1 hangs. (8) head change on the retry path: one or two controlled queues, the first task of queue 1 fails / repeats / asks for a delay, and while the worker stands at loop / afterCheck / beforeSelect / after a few ticks of its back-off the head of the queue is changed through the queue API (AddFirst, Remove of the failed task, Filter; 30 % with CancelTaskDelay; sometimes a delivery too): the execution after the back-off must be of the head of then (oracle log), op by op against the model (driver ops `ext ...`). (9) lock windows: 2-3 free-running queues with the real consumer; queue 1's worker is parked at every yield point queue.lock.* (in front of its queue lock: empty test of the shortcut and of the periodic head check, status updates) 40-120 times, in 30 % of them an event with 1-3 tasks for queue 1 (often empty then) and the other queues arrives: the consumer must come back for the next event and the other queues must run dry before the worker is released; loader/controller cases draw binding names from three regimes (all different, none named, pool of two) and queue names from a pool with look-alikes of `main` and of each other (case variants, prefixes, suffixes). (10) compaction window: the handler of controlled queue 1 (3-6 tasks, 1-3 queues) walks its queue and drops some followers of the running task (Iterate, then Filter with a callback that keeps every task it does not know — what combineBindingContextForHook does) and from INSIDE the callback for item number `at` an event with 1-3 tasks (mostly for queue 1) is sent through the real consumer; the callback holds on until the consumer has placed them or, when it has to wait for the queue lock, 25 ms; 1-3 such compactions per case, handler results Success/Fail/Repeat, then run dry: oracle compacted (old tasks not dropped, in their order, then the delivered ones), log, orderkept, op filterdeliver against the model. (11) whole operator with webhook bindings: 1-3 v1 bash hooks with 1-2 schedule bindings and 0-1 kubernetes binding (queue key absent / `main` written out / one named queue, also look-alikes of main; kubernetes bindings with waitForSynchronization / keepFullObjectsInMemory / allowFailure keys) and kubernetesValidating / kubernetesMutating / kubernetesCustomResourceConversion bindings (h1 always); the real initValidatingWebhookManager closure and the real conversionEventHandler behind their chi routers; h1's execution for its first binding hangs at the head of its queue (75 % main), 2-5 more ticks / objects put followers behind it, then 1-3 admission / conversion requests (one for h1) are answered through the routers: every queue holds what it held (untouched), requests answered positively, and after the release logfree / order / complete on the taps' trace plus logfree on the hook PROCESSES' own start/end lines, an execution counted for the queues of the bindings whose contexts it was given; loader / controller cases now also write the other keys of a binding (waitForSynchronization true/false, executeHookOnSynchronization, keepFullObjectsInMemory, allowFailure, group, jqFilter, namespace selector) and compare the converter with Routing.convKube (op convkube). Non-trivial = trace of >= 10 events; distinct = distinct op-line sequences."
 	r.One(0, func(c *Case, _ *Rng) {
 		c.Desc = "default queue name from the real config loader"
 		c03DefaultQueue(c)
@@ -581,4 +581,6 @@ func runC03(r *Run) {
 	r.Cases(60000, r.N(40, 300), 8, func(c *Case, rng *Rng) { c03OperatorMulti(r, c, rng) })
 	r.Cases(70000, r.N(300, 3000), 0, func(c *Case, rng *Rng) { c03HeadChange(c, rng) })
 	r.Cases(80000, r.N(60, 600), 0, func(c *Case, rng *Rng) { c03LockWindows(c, rng) })
+	r.Cases(90000, r.N(150, 1000), 0, func(c *Case, rng *Rng) { c03FilterWindow(c, rng) })
+	r.Cases(95000, r.N(30, 160), 8, func(c *Case, rng *Rng) { c03OperatorWebhook(r, c, rng) })
 }
